@@ -39,7 +39,7 @@ def run_job(job):
             # Bound the number of input groups (each is 16 bucket hand-offs): several MiB of strings
             # cut into 256-byte groups is millions of scheduler steps, close to the step budget.
             from .family_graph import _stall_faults
-            faults = _stall_faults(rng_for("str-stall", seed, index, s))
+            faults = _stall_faults(rng_for("str-stall", seed, index, s), "str")
             while total / min_group > 4000 and min_group < 140000:
                 min_group = {256: 512, 512: 1024, 1024: 4096, 4096: 16384, 16384: 140000}[min_group]
             if only is not None and s != only:
